@@ -48,7 +48,7 @@ type Contract struct {
 	Props     []string
 	Clauses   []*Clause
 	Modifies  []string
-	ModSets   map[string][]*Expr // component spec -> restricting reference set (modifies Comp@{e1,e2})
+	ModSets   map[string][]*Expr // component spec -> restricting reference set (modifies Comp@{e1,e2} or Comp@{b :: pred(b)})
 	HasMod    bool
 	Trusted   bool
 	Pure      bool
@@ -262,6 +262,14 @@ func ParseContractFile(path, pkg string, cf *ContractFile) error {
 							inner := strings.TrimSuffix(strings.TrimSpace(m[k+2:]), "}")
 							var es []*Expr
 							for _, part := range splitTopLevel(inner) {
+								if k2 := strings.Index(part, "::"); k2 >= 0 {
+									body, err := ParseExpr(part[k2+2:])
+									if err != nil {
+										return fail(err)
+									}
+									es = append(es, &Expr{Kind: "setcomp", Name: strings.TrimSpace(part[:k2]), Args: []*Expr{body}})
+									continue
+								}
 								e, err := ParseExpr(part)
 								if err != nil {
 									return fail(err)
